@@ -49,6 +49,7 @@ def extract(ctx, finfo, grid_param, mean_param, np_aliases=("np", "numpy")):
         return None, [("indet", store, "store index is not a simple name")]
     ivar = idx.id
     facts.ivar = ivar
+    elem_var = None  # a loop variable that holds grid[ivar]
     # ---- values taken by the index variable
     start = step = count_expr = None
     if isinstance(loop, ast.For) and isinstance(loop.target, ast.Name) and loop.target.id == ivar \
@@ -73,6 +74,27 @@ def extract(ctx, finfo, grid_param, mean_param, np_aliases=("np", "numpy")):
             facts.count_desc = "range(%s, %s)" % (ast.unparse(start), ast.unparse(stop))
         except NotAlgebraic:
             return None, [("indet", loop, "range bounds not algebraic")]
+    elif isinstance(loop, ast.For) and isinstance(loop.target, ast.Tuple) and len(loop.target.elts) == 2 \
+            and isinstance(loop.target.elts[0], ast.Name) and loop.target.elts[0].id == ivar \
+            and isinstance(loop.iter, ast.Call) and isinstance(loop.iter.func, ast.Name) and loop.iter.func.id == "enumerate" and loop.iter.args:
+        # for i, z in enumerate(grid[k:], start=k)
+        facts.index_kind = "enumerate"
+        seq = loop.iter.args[0]
+        kw = {k.arg: k.value for k in loop.iter.keywords}
+        st_node = kw.get("start", loop.iter.args[1] if len(loop.iter.args) > 1 else None)
+        st_val = st_node.value if isinstance(st_node, ast.Constant) else (0 if st_node is None else None)
+        lower = None
+        if isinstance(seq, ast.Subscript) and isinstance(seq.value, ast.Name) and seq.value.id == grid_param and isinstance(seq.slice, ast.Slice) \
+                and seq.slice.upper is None and seq.slice.step is None:
+            lower = seq.slice.lower.value if isinstance(seq.slice.lower, ast.Constant) else (0 if seq.slice.lower is None else None)
+        elif isinstance(seq, ast.Name) and seq.id == grid_param:
+            lower = 0
+        facts.start = st_val
+        facts.step = 1
+        facts.stop_is_len = lower is not None and st_val is not None and lower == st_val
+        facts.count_desc = ast.unparse(loop.iter)
+        if facts.stop_is_len and isinstance(loop.target.elts[1], ast.Name):
+            elem_var = loop.target.elts[1].id
     else:
         # counter idiom: ivar = c before the loop; ivar += 1 once, last in the body;
         # the loop iterates over grid[c:]
@@ -121,17 +143,38 @@ def extract(ctx, finfo, grid_param, mean_param, np_aliases=("np", "numpy")):
     if not isinstance(core, ast.Call):
         return None, [("viol-call", store, "stored value %s is not a call of the integral over the cell" % ast.unparse(val)[:70])]
     facts.call = core
+    # limits as polynomials over atoms G[<index poly>]; a loop element variable stands for G[i]
+    def limit_poly(a):
+        class _T(ast.NodeTransformer):
+            def visit_Subscript(self, node):
+                if isinstance(node.value, ast.Name) and node.value.id == grid_param and not isinstance(node.slice, ast.Slice):
+                    try:
+                        return ast.Name(id="G[%s]" % py_poly(node.slice).key(), ctx=ast.Load())
+                    except NotAlgebraic:
+                        return node
+                return self.generic_visit(node)
+
+            def visit_Name(self, node):
+                if elem_var is not None and node.id == elem_var:
+                    return ast.Name(id="G[%s]" % Poly.atom(ivar).key(), ctx=ast.Load())
+                return node
+        import copy
+        ex = flow.expand(a, keep={grid_param, ivar} | ({elem_var} if elem_var else set()))
+        return py_poly(_T().visit(copy.deepcopy(ex)))
+
+    lim_args = [a for a in core.args if any(isinstance(x, ast.Name) and x.id in (grid_param, elem_var) for x in ast.walk(flow.expand(a, keep={grid_param, ivar} | ({elem_var} if elem_var else set()))))]
     lims = []
-    for a in core.args:
-        if isinstance(a, ast.Subscript) and isinstance(a.value, ast.Name) and a.value.id == grid_param:
-            try:
-                lims.append(py_poly(a.slice))
-            except NotAlgebraic:
-                lims.append(None)
+    for a in lim_args:
+        try:
+            lims.append(limit_poly(a))
+        except NotAlgebraic:
+            lims.append(None)
     facts.limits = lims
     i0 = Poly.atom(ivar)
-    facts.limits_ok = len(lims) == 2 and lims[0] == i0 - Poly.const(1) and lims[1] == i0
-    facts.limits_desc = ", ".join("%s[%s]" % (grid_param, l.key() if l is not None else "?") for l in lims)
+    want_lo = Poly.atom("G[%s]" % (i0 - Poly.const(1)).key())
+    want_hi = Poly.atom("G[%s]" % i0.key())
+    facts.limits_ok = len(lims) == 2 and lims[0] == want_lo and lims[1] == want_hi
+    facts.limits_desc = ", ".join(l.key() if l is not None else "?" for l in lims).replace("G[", "%s[" % grid_param)
     # ---- element 0
     zero = None
     for n in ast.walk(f.node):
